@@ -91,6 +91,9 @@ func genSAM(r *rand.Rand) *sam.SAM {
 	if r.IntN(3) > 0 {
 		nt = r.IntN(9)
 	}
+	if r.IntN(16) == 0 { // many tags: more fields on one line than a fixed-size field buffer would hold (16, 32, 64 …)
+		nt = pick(r, []int{4, 5, 6, 20, 21, 22, 23, 52, 53, 54, 100}) + r.IntN(3)
+	}
 	if nt > 0 || r.IntN(2) == 0 {
 		s.Tags = map[string]any{}
 	}
